@@ -90,6 +90,11 @@ def judge(m, ex, prefix, variant, ev, kind, info):
         # iteration over the whole map: only the listing function may do it outside the admin guard
         if ev.frame.body.id == m.lister().id or (ev.frame.body.parent or '').startswith(m.lister().id):
             return True, 'inside the key listing (filter checked by C08.c)'
+        if kind == 'map-bulk-read' and ev.frame.body.id in filtered_scanners(m, prefix):
+            okf, whyf = scanner_flag_ok(m, ex, ev)
+            if okf:
+                return True, 'inside a scan that applies the listing\'s secure-key filter, called with %s' % whyf
+            return False, 'scan behind the secure-key filter but called with %s (not the administrator flag / false)' % whyf
         return False, 'iterates the whole map outside the admin guard'
     if safe:
         gk = safe[-1][2]
@@ -297,13 +302,14 @@ def guard_predicates(ck, m, prefix):
     ck.ob('C08.b', short(hp.id), 'secure-keys-admin-only', okp, whyp, '%s:%s' % (hp.file, hp.line))
 
 
-def listing(ck, m, prefix):
-    lb = m.lister()
-    fn = short(lb.id)
-    # the filter closure(s) of the lister: must call a helper / test combining flag and starts_with(prefix)
+def scanner_filter_ok(m, lb, prefix):
+    """does the body filter what it iterates with `flag || !starts_with(key, prefix)`, flag = its own bool parameter?"""
+    bool_params = [i for i in range(1, lb.argc + 1) if lb.locals[i] == 'bool']
+    if len(bool_params) != 1:
+        return False
+    fp = bool_params[0]
     closures = [b for b in m.prog.user_bodies() if b.parent == lb.id]
     found = False
-    state_test = False
     for cb in closures:
         for bi, t in cb.calls():
             cal = m.prog.bodies.get(callee(t))
@@ -326,16 +332,62 @@ def listing(ck, m, prefix):
                         (k == 'assign' and pl['k'] == 'use' and (pl['o'].get('c') or pl['o'].get('m') or {}).get('l') in neg)
                         or (k == 'assign' and pl['k'] == 'un' and pl['op'] == 'Not')
                         for (_, _, k, pl) in cal.defs().get(0, []))
-                    # the flag argument passed by the closure must be the lister's bool parameter (captured)
+                    # the flag argument passed by the closure must be the scanner's bool parameter (captured)
                     flag_from_param = False
                     for r in origins(cb, t['args'][0]):
                         if r[0] == 'capture':
                             site = m.prog.closure_sites().get(cb.id)
                             if site:
                                 for r2 in origins(site[0], site[3][r[1]]):
-                                    if r2[0] == 'param' and r2[1] == 3:
+                                    if r2[0] == 'param' and r2[1] == fp:
                                         flag_from_param = True
-                    found = rets_from_neg and flag_from_param
+                    found = found or (rets_from_neg and flag_from_param)
+    return found
+
+
+_SCANNERS = {}
+
+
+def filtered_scanners(m, prefix):
+    """Database methods that iterate the shared map behind the secure-key filter (list_keys and its siblings: counts, ...)"""
+    if _SCANNERS.get('prog') is not m.prog:
+        _SCANNERS.clear()
+        _SCANNERS['prog'] = m.prog
+        ids = set()
+        for b in m.prog.user_bodies():
+            if b.kind == 'method' and b.argc >= 2 and b.locals[1] == '&nundb::bo::Database' and any(ty == 'bool' for ty in b.locals[2:b.argc + 1]):
+                if scanner_filter_ok(m, b, prefix):
+                    ids.add(b.id)
+        _SCANNERS['ids'] = ids
+    return _SCANNERS['ids']
+
+
+def scanner_flag_ok(m, ex, ev):
+    """the flag the scanner was called with is the constant false or the session's administrator flag"""
+    fr = ev.frame
+    b = fr.body
+    fp = [i for i in range(1, b.argc + 1) if b.locals[i] == 'bool']
+    if len(fp) != 1:
+        return False, 'no flag'
+    flags = fr.env.get(fp[0], ())
+    ok = bool(flags)
+    for f in flags:
+        if f[0] == 'const':
+            import json
+            if json.loads(f[1]).get('v') is False:
+                continue
+            ok = False
+        elif is_admin_flag(ex, f):
+            continue
+        else:
+            ok = False
+    return ok, 'flag=%s' % sorted(ex.describe(x) for x in flags)
+
+
+def listing(ck, m, prefix):
+    lb = m.lister()
+    fn = short(lb.id)
+    found = scanner_filter_ok(m, lb, prefix)
     ck.ob('C08.c', fn, 'hides-secure-keys', found,
           'listing filter = flag || !starts_with(key, %r), flag = the lister\'s parameter' % prefix if found
           else 'listing filter does not combine its flag with a !starts_with(%r) test' % prefix,
